@@ -13,6 +13,7 @@ pub mod c03;
 pub mod c13;
 pub mod c14;
 pub mod c16;
+pub mod c17;
 pub mod ctxgen;
 pub mod hirsample;
 pub mod inputgen;
@@ -156,6 +157,7 @@ fn main() {
                 "c16" => c16::replay(body),
                 "c13" => c13::replay(body),
                 "c14" => c14::replay(body),
+                "c17" => c17::replay(body),
                 p => {
                     eprintln!("no replay for {}", p);
                     std::process::exit(2)
@@ -205,6 +207,7 @@ fn main() {
                 "c16" => c16::run(&ctx),
                 "c13" => c13::run(&ctx),
                 "c14" => c14::run(&ctx),
+                "c17" => c17::run(&ctx),
                 _ => usage(),
             };
             let mut j = rep.to_json();
